@@ -124,6 +124,7 @@ def evalOp (op : String) (n : Nat) (ss : List Str) (ns : List Nat) (st : Stack)
   | "secondary" => .ok (cWithSecondary n k0 (ks.getD 1 none))
   | "combine" => .ok (cCombine n k0 (ks.getD 1 none))
   | "handled" => .ok (cHandled n s0 k0)
+  | "handledindomain" => .ok (cHandledInDomain n s0 (ss.getD 1 []) k0)
   | "handleasassertion" => .ok (cHandleAsAssertionFailure n s0 st k0)
   | "newassertionwrapped" => .ok (cNewAssertionErrorWithWrappedErrf n s0 (ns.getD 0 0 ≠ 0) (ss.getD 1 []) st k0)
   | "newfe" => .ok (cNewfE n s0 st (dropNils ks))
